@@ -30,7 +30,7 @@ RULE = ("one evaluation = one seeded history (<= 12 operations, files of 3..40 e
         "compress/repack copy), detection (each injected inconsistency among the violations; metadata-only corruptions: the copy "
         "reports the same list). non-trivial = at least one product or corruption checked; distinct = distinct event-log digests")
 STATE_MEASURE = "distinct (operation, producer of the source, corruption kinds / options) tuples"
-PROBES = ["closure_writer", "closure_export", "closure_compress", "closure_repack", "closure_condense", "closure_split",
+PROBES = ["metadata_rectified_mid_session", "closure_writer", "closure_export", "closure_compress", "closure_repack", "closure_condense", "closure_split",
           "closure_join", "copy_same_valid", "corrupt_single", "corrupt_pair", "corrupt_copy_compared",
           "k_feat_len", "k_contour_len", "k_roi", "k_unknown_feat", "k_missing_key", "k_index", "k_channel_count",
           "k_laser_count", "k_samples", "k_extlink", "k_nonpositive", "fluorescence_product", "trace_without_flmax",
@@ -114,7 +114,7 @@ class World:
                     "trace": (fl and r.random() < 0.6) or (not fl and r.random() < 0.12), "image": r.random() < 0.6,
                     "mask": r.random() < 0.5, "contour": r.random() < 0.3, "index": r.random() < 0.3,
                     "flset": r.choice([[1, 2], [1, 2], [1], [2], [3], [3], [1, 3], [1, 2, 3]]),
-                    "rewrite_index": r.random() < 0.25, "laser_off": r.random() < 0.3, "sessions3": r.random() < 0.3, "ghost": r.random() < 0.2,
+                    "rewrite_index": r.random() < 0.25, "laser_off": r.random() < 0.3, "sessions3": r.random() < 0.3, "ghost": r.random() < 0.2, "checkpoint": r.random() < 0.3,
                     "cmp": r.choice(["zstd", "zstd1", "gzip", "none"])}
         src = r.randrange(1 << 16)
         if x < 0.22:
@@ -285,6 +285,19 @@ class World:
                             hw3.store_feature(f, v)
                         hw3.store_feature("index", np.arange(b + 1, n + 1))
                     ctx.probe("three_writer_sessions_one_without_exit")
+                elif op.get("checkpoint") and n >= 3:
+                    # one session that writes, rectifies the metadata explicitly (a checkpoint while recording) and writes on
+                    from dclab.rtdc_dataset.writer import RTDCWriter
+                    a, b = max(1, n // 3), max(2, 2 * n // 3)
+                    parts = [m.select(np.arange(0, a)), m.select(np.arange(a, b)), m.select(np.arange(b, n))]
+                    gen.write_model(parts[0], self.dir / name, compression=op["cmp"])
+                    with RTDCWriter(self.dir / name, mode="append") as hwc:
+                        for f, v in parts[1].feats.items():
+                            hwc.store_feature(f, v)
+                        hwc.rectify_metadata()
+                        for f, v in parts[2].feats.items():
+                            hwc.store_feature(f, v)
+                    ctx.probe("metadata_rectified_mid_session")
                 else:
                     gen.write_model(m, self.dir / name, compression=op["cmp"])
                 if op.get("ghost"):
